@@ -169,6 +169,9 @@ class InstrumentMachine(Machine):
 
     def _value(self, rng, kind, a, cfg):
         if a == "name":
+            if rng.random() < 0.4:
+                # the empty default name, and names that also occur inside filter / pipeline names ("f0", ": ", "0" ...)
+                return rng.choice(["", "", "f", "g", "0", "1", "2", ": ", "f1", "g0", "n", "n1"])
             return "n%d" % rng.randrange(100)
         if a in ("min_bins_per_pixel", "min_bins_per_window"):
             return rng.choice([1, 2, 3, 5, 10, 25])
